@@ -9,8 +9,8 @@ import z3
 
 from pyvc.arrays import Arr, fresh_symbolic
 from pyvc.engine import Contract
-from pyvc.models import NP
-from pyvc.values import Num, b_and, b_not, ite, lift, mkbool, num_eq, to_z3, zb, cur
+from pyvc.models import NP, e_sum, sum_compress
+from pyvc.values import Num, b_and, b_implies, b_not, b_or, ite, lift, mkbool, num_eq, to_z3, zb, cur
 from .c01_bottleneck import INF, input_requires, make_cut_filter, sym_input
 
 MOD = "persim/wasserstein.py"
@@ -29,9 +29,9 @@ def cost_2(S, T, M, N, i, j):
     def tdiag():
         return ite(num_eq(i - M, j), (T.get(j, 1) - T.get(j, 0)) / NP.sqrt(2.0), INF)
     ci, cj = zb(lift(i) < M), zb(lift(j) < N)
-    a = e.under(z3.And(ci, cj), pp)
-    b = e.under(z3.And(ci, z3.Not(cj)), sdiag)
-    c = e.under(z3.And(z3.Not(ci), cj), tdiag)
+    a = e.under(z3.And(ci, cj), pp, default=0.0)
+    b = e.under(z3.And(ci, z3.Not(cj)), sdiag, default=0.0)
+    c = e.under(z3.And(z3.Not(ci), cj), tdiag, default=0.0)
     return ite(mkbool(ci), ite(mkbool(cj), a, b), ite(mkbool(cj), c, 0.0))
 
 
@@ -55,7 +55,8 @@ def wasserstein_contract(want_matching):
         def make(st2):
             D = Arr((M + N, M + N), lambda idx: cost_2(S0, T0, M, N, idx[0], idx[1]), dtype="float")
             st2.g["D"] = D
-            return {"env": {"D": D, "M": M, "N": N}, "assume": [z3.And(to_z3(M) >= 1, to_z3(N) >= 1)]}
+            st2.g["M_"], st2.g["N_"] = M, N
+            return {"env": {"D": D, "M": M, "N": N, "matching": st2.env.lookup("matching")}, "assume": [z3.And(to_z3(M) >= 1, to_z3(N) >= 1)]}
         return {"ob": out, "make": make}
 
     def hint_capture(st):
@@ -68,14 +69,59 @@ def wasserstein_contract(want_matching):
         if "lsa" not in g:
             return [("assignment_solver_called", False, "P")]
         val = res[0] if want_matching else res
-        return [("value_is_cost_of_optimal_assignment_on_D", lift(val) == g["lsa"]["minsum"], "P")]
+        out = [("value_is_cost_of_optimal_assignment_on_D", lift(val) == g["lsa"]["minsum"], "P")]
+        if want_matching:
+            out += matching_post(a, res[1], val)
+        return out
+
+    def matching_post(a, R, val):
+        e, g = a.eng, a.g
+        T6 = ("only:C06",)
+        info = getattr(R, "compress", None)
+        if info is None or R.ndim != 2:
+            return [("rows_are_a_selection_of_the_assignment", False, "P", T6)]
+        lsa, D, M, N = g["lsa"], g["D"], g["M_"], g["N_"]
+        n = lsa["n"]
+        perm, inv = lsa["perm"], lsa["inv"]
+
+        def col(i):
+            it = to_z3(i)
+            j = perm(it)
+            e.axiom(z3.Implies(z3.And(it >= 0, it < to_z3(n)), z3.And(j >= 0, j < to_z3(n), inv(j) == it)))
+            return Num(j)
+        out = [("matching_has_three_columns", R.shape[1] == 3, "P", T6)]
+        keep = lambda i: b_not(b_and(lift(i) >= M, lift(col(i)) >= N))     # diagonal-diagonal pairs are dropped
+        i = e.fresh_int("pi", lo=0, hi=M)
+        r = e.fresh_int("pr", lo=0, hi=info.n)
+        src_r = info.at(r)
+        out.append(("dropped_rows_are_exactly_diagonal_to_diagonal", zb(info.mask_fn(src_r)) == zb(keep(src_r)), "P", T6))
+        k = e.fresh_int("pk", lo=0, hi=n)
+        out.append(("selection_mask_is_not_diagonal_to_diagonal", zb(info.mask_fn(k)) == zb(keep(k)), "P", T6))
+        ri = info.rank_of(i)
+        out.append(("each_dgm1_point_has_a_row", b_and(lift(ri) >= 0, lift(ri) < info.n, lift(R.get(ri, 0)) == i), "P", T6))
+        out.append(("each_dgm1_point_has_one_row_only", b_implies(lift(R.get(r, 0)) == i, lift(r) == ri), "P", T6))
+        j = e.fresh_int("pj", lo=0, hi=N)
+        jt = to_z3(j)
+        srcj = Num(inv(jt))
+        e.axiom(z3.Implies(z3.And(jt >= 0, jt < to_z3(n)), z3.And(inv(jt) >= 0, inv(jt) < to_z3(n), perm(inv(jt)) == jt)))
+        rj = info.rank_of(srcj)
+        out.append(("each_dgm2_point_has_a_row", b_and(lift(rj) >= 0, lift(rj) < info.n, lift(R.get(rj, 1)) == j), "P", T6))
+        out.append(("each_dgm2_point_has_one_row_only", b_implies(lift(R.get(r, 1)) == j, lift(r) == rj), "P", T6))
+        out.append(("row_first_index_is_point_or_minus_one", lift(R.get(r, 0)) == ite(lift(src_r) < M, src_r, -1), "P", T6))
+        out.append(("row_second_index_is_point_or_minus_one", lift(R.get(r, 1)) == ite(lift(col(src_r)) < N, col(src_r), -1), "P", T6))
+        out.append(("row_cost_is_cost_matrix_entry_of_the_pair", lift(R.get(r, 2)) == D.get(src_r, col(src_r)), "P", T6))
+        # sum of the row costs == reported distance (Sigma-compress + Sigma-extensionality; dropped pairs cost 0)
+        f_src = lambda ii: D.get(ii, col(ii))
+        rows_sum, ind_sum = sum_compress(e, info, f_src, lambda rr: R.get(rr, 2), "row_cost_sum")
+        out.append(("sum_of_row_costs_is_the_distance", lift(rows_sum) == val, "P", T6))
+        return out
 
     return Contract(MOD, "wasserstein", make_args, requires=input_requires, ensures=ensures, definedness="P",
                     variant="matching=%s" % want_matching,
-                    cuts=[("DUL = metrics.pairwise.pairwise_distances(S, T)", cut_filter),
+                    cuts=[("DUL = ", cut_filter),
                           ("matchi, matchj = optimize.linear_sum_assignment(D)", cut_matrix)],
-                    hints=[("DUL = metrics.pairwise.pairwise_distances(S, T)", hint_capture)])
+                    hints=[("DUL = ", hint_capture)])
 
 
 def all_contracts(tier):
-    return [wasserstein_contract(False)], {}
+    return [wasserstein_contract(False), wasserstein_contract(True)], {}
